@@ -84,6 +84,11 @@ def token_lines(tok, i, st):
         sh = shebangs_of(_f)
         # a body line that merely looks like a first-line declaration (only the very first line of a file is one)
         return [f"{sh[-1]} body_line_{i}" if sh else f"shebangless_body_{i} = {i}"]
+    if tok == "N":
+        # an SPDX snippet further down in the file: its comment belongs to the snippet, it is not the file's header
+        c1 = (lambda t: f"{single} {t}") if single else (lambda t: f"{multi[0]} {t} {multi[2].strip()}")
+        return [c1("SPDX-SnippetBegin"), c1(f"SPDX-SnippetCopyrightText: 2003 Snippet Author {i}"), c1("SPDX-License-Identifier: Zlib"),
+                f"snippet_code_{i}()", c1("SPDX-SnippetEnd")]
     if tok in "UQ":
         # U: a one-line header; Q: a code line that quotes exactly that header text in a string
         one = f"{single} SPDX-FileCopyrightText: 2009 OldU" if single else f"{multi[0]} SPDX-FileCopyrightText: 2009 OldU {multi[2].strip()}"
@@ -130,7 +135,7 @@ def split_by_construction(seq, st, prefix_lines, replace):
 
 
 def bounds(tier, seed):
-    return {"tokens": list(TOKENS) + ["X (multi-line-only styles)", "G (5000-character line), U (one-line header), Q (code line quoting U's text): 16 fixed sequences per style"], "max_len": {"python,c": 3 if tier == "quick" else 4, "other styles": 2 if tier == "quick" else 3},
+    return {"tokens": list(TOKENS) + ["X (multi-line-only styles)", "G (5000-character line), U (one-line header), Q (code line quoting U's text): 26 fixed sequences per style; N (snippet block)"], "max_len": {"python,c": 3 if tier == "quick" else 4, "other styles": 2 if tier == "quick" else 3},
             "styles": list(all_styles(tier)), "prefixes": ["none", "BOM", "shebang (styles that define one)", "BOM+shebang", "'#!' interpreter line (every style, 8 fixed sequences)"],
             "line_endings": ["LF", "CRLF", "CR"], "final_newline": [True, False], "modes": ["replace", "--no-replace"],
             "seed_slice": "sequences of the next length starting with TOKENS[seed % 10] for python" if tier == "quick" else None}
@@ -161,7 +166,8 @@ def cases(tier, seed):
                 for replace in (True, False):
                     yield {"style": name, "seq": s, "prefix": "hashbang", "ending": ending, "final": True, "replace": replace}
     for name in all_styles(tier):
-        for s in ("G", "GH", "HG", "GC", "CG", "OGH", "GBH", "U", "QU", "QCU", "QBU", "CQU", "QUC", "UQ", "QQU", "QOU"):
+        for s in ("G", "GH", "HG", "GC", "CG", "OGH", "GBH", "U", "QU", "QCU", "QBU", "CQU", "QUC", "UQ", "QQU", "QOU",
+                  "N", "CN", "NC", "HN", "HCN", "NH", "CNH", "ON", "BN", "NN"):
             for prefix in ("none", "bom", "shebang"):
                 for ending in ("\n", "\r\n", "\r"):
                     for final in (True, False):
@@ -310,8 +316,8 @@ def evaluate(c) -> R:
                 if t not in middle:
                     r.violation(f"new-tag-outside-header|{sig}", f"{label}: {t!r} not inside the header block; new file {new_n!r}")
             for i, tok in enumerate(seq):
-                if tok in "CIFSXGQ" and not (h_lo <= i <= h_up):
-                    body = token_lines(tok, i, st)[-1 if tok == "X" else 0].strip()
+                if tok in "CIFSXGQN" and not (h_lo <= i <= h_up):
+                    body = token_lines(tok, i, st)[-1 if tok == "X" else (1 if tok == "N" else 0)].strip()
                     if body in middle or (tok == "X" and f"after_terminator_{i} = {i}" in middle):
                         r.violation(f"body-line-inside-header|{sig}", f"{label}: body line {body!r} ended up inside the header block {middle!r}")
             for line in middle.split("\n"):
